@@ -246,27 +246,28 @@ def setConn (s : State) (ci : Nat) (c : Conn) : State := { s with conns := s.con
 
 def cbCount (b : Bool) : Nat := if b then 1 else 0
 
-/-- Read Request (`blob = false`, PDU size 3) and Read Blob Request (`blob = true`, PDU size 5) -/
+/-- Read Request (`blob = false`, PDU size 3) and Read Blob Request (`blob = true`, PDU size 5);
+    reads never change the state -/
 -- src: server::handle_read_request / handle_read_blob_request / check_size_and_handle
-def handleRead (s : State) (conn : Conn) (op : UInt8) (pdu : List UInt8) (blob : Bool) : State × Out :=
+def handleRead (s : State) (conn : Conn) (op : UInt8) (pdu : List UInt8) (blob : Bool) : Out :=
   let parsed : Option (UInt8 × UInt8 × Nat) :=
     match blob, pdu with
     | false, [_, lo, hi] => some (lo, hi, 0)
     | true, [_, lo, hi, olo, ohi] => some (lo, hi, read16 olo ohi)
     | _, _ => none
   match parsed with
-  | none => (s, .resp (errorResponse op 0x04 0) 0)
+  | none => .resp (errorResponse op 0x04 0) 0
   | some (lo, hi, offset) =>
       let h := read16 lo hi
       match attrAt? s.decl h with
-      | none => (s, .resp (errorResponse op 0x01 h) 0)
-      | some .ro => (s, .unmodelled)
-      | some (.descr _) => (s, .unmodelled)
+      | none => .resp (errorResponse op 0x01 h) 0
+      | some .ro => .unmodelled
+      | some (.descr _) => .unmodelled
       | some a =>
           match readAccess s.mem conn.cfg conn.sec a offset (negotiatedMtu s.decl conn - 1) with
-          | none => (s, .oob)
-          | some (.success, bytes) => (s, .resp ((if blob then 0x0d else 0x0b) :: bytes) 0)
-          | some (rc, _) => (s, .resp (errorResponse op rc.att h) 0)
+          | none => .oob
+          | some (.success, bytes) => .resp ((if blob then 0x0d else 0x0b) :: bytes) 0
+          | some (rc, _) => .resp (errorResponse op rc.att h) 0
 
 /-- Write Request (`respond = true`) and Write Command (`respond = false`: all output dropped) -/
 -- src: server::handle_write_request / handle_write_command
@@ -293,8 +294,8 @@ def handlePlain (s : State) (ci : Nat) (conn : Conn) (pdu : List UInt8) : State 
   match pdu with
   | [] => (s, .bad)
   | op :: _ =>
-      if op = 0x0a then handleRead s conn op pdu false
-      else if op = 0x0c then handleRead s conn op pdu true
+      if op = 0x0a then (s, handleRead s conn op pdu false)
+      else if op = 0x0c then (s, handleRead s conn op pdu true)
       else if op = 0x12 then handleWrite s ci conn op pdu true
       else if op = 0x52 then handleWrite s ci conn op pdu false
       else (s, .unmodelled)
